@@ -194,8 +194,11 @@ def get_chunk(in_key, config):
     """Read a chunk from the named array"""
     name = in_key.name
     in_coords = in_key.coords
-    arr = config.reads_map[name].open()
-    selection = key_to_slices(in_coords, arr)
+    read_proxy = config.reads_map[name]
+    arr = read_proxy.open()
+    # use the chunks the operation was planned with: the backing array may be
+    # stored with a different chunk grid (e.g. a store into an existing array)
+    selection = key_to_slices(in_coords, arr, read_proxy.chunks)
     arg = arr[selection]
     arg = numpy_array_to_backend_array(arg)
     return arg
